@@ -185,13 +185,24 @@ def update_register_assignments_to_set_bitmap(
                     index = bitmap_backed.index(op.dest)
                     new_ops.append(op)
                     reg = bitmap_registers[index // BITMAP_BITS]
-                    new = IntOp(
-                        bitmap_rprimitive,
-                        reg,
-                        Integer(1 << (index & (BITMAP_BITS - 1)), bitmap_rprimitive),
-                        IntOp.OR,
-                        op.line,
-                    )
+                    mask = 1 << (index & (BITMAP_BITS - 1))
+                    if isinstance(op.src, LoadErrorValue) and op.src.undefines:
+                        # This is "del x": the variable becomes undefined again.
+                        new = IntOp(
+                            bitmap_rprimitive,
+                            reg,
+                            Integer(((1 << BITMAP_BITS) - 1) & ~mask, bitmap_rprimitive),
+                            IntOp.AND,
+                            op.line,
+                        )
+                    else:
+                        new = IntOp(
+                            bitmap_rprimitive,
+                            reg,
+                            Integer(mask, bitmap_rprimitive),
+                            IntOp.OR,
+                            op.line,
+                        )
                     new_ops.append(new)
                     new_ops.append(Assign(reg, new))
                 else:
